@@ -54,8 +54,17 @@ PARTIAL = ['cifar100.load_split: download, validation and decompression of the r
 CASE_TIMEOUT = 300
 
 BS = 1 << 18                      # the property's "transfer block size" (generation hint only)
-URL = 'https://example.invalid/some/dir/data.lzma'
+URL_BASE = 'https://example.invalid/some/dir/'
 FINAL = {'download': 'data.lzma', 'decompress': 'data'}
+# base names of the downloaded file (case field 'name'): blanks and parentheses, several dots, a hidden file, a name
+# that itself ends in the temporary suffix, percent escapes (the URL path is NOT unquoted by the code)
+NAMES = ['data.lzma', 'my file (1).v2.lzma', '.hidden.lzma', 'x.partial.lzma', 'a%20b.tar.lzma', 'UPPER.Lzma.lzma']
+
+
+def _final(case):
+  name = NAMES[case.get('name', 0)]
+  return name if case['kind'] == 'download' else name[:-5]
+
 
 
 def _payload(n):
@@ -320,9 +329,10 @@ def _attempt(case, root, fault, compressed):
   rec = crashfs.Recorder(*(crash if crash else (None, 0, 0)),
                          close_error=fault[1] if fault and fault[0] == 'flusherr' else None)
   env = _Env(root, rec, payload, fault)
-  final = FINAL[kind]
+  final = _final(case)
+  src_name = NAMES[case.get('name', 0)]
   if kind == 'decompress':
-    src = os.path.join(root, 'data.lzma')
+    src = os.path.join(root, src_name)
     data = compressed
     if fault and fault[0] == 'corrupt':
       data = compressed[:len(compressed) * fault[1] // fault[2]]
@@ -333,6 +343,7 @@ def _attempt(case, root, fault, compressed):
     try:
       if kind == 'download':
         form = case.get('form', 0)
+        URL = URL_BASE + src_name
         if form == 1:      # query string and fragment are not part of the file name; progress_ = range
           r = dl.maybe_download(URL + '?alt=media&x=a/b.c#frag/x.y', root, range)
         elif form == 2:    # cache_dir omitted: default_cache_dir(); progress_ a one-shot iterator factory, by keyword
@@ -343,7 +354,7 @@ def _attempt(case, root, fault, compressed):
         else:
           r = dl.maybe_download(URL, root)
       else:
-        r = dl.maybe_lzma_decompress(os.path.join(root, 'data.lzma'))
+        r = dl.maybe_lzma_decompress(os.path.join(root, src_name))
       out['outcome'] = 'ret'
       out['ret_ok'] = (os.path.normpath(r) == os.path.join(root, final))
     except crashfs.SimCrash:
@@ -354,7 +365,7 @@ def _attempt(case, root, fault, compressed):
   out['raw_writes'] = {str(k): v for k, v in rec.raw_writes.items()}
   out['final'] = _file_state(root, final, payload)
   out['partial'] = _file_state(root, final + '.partial', payload)
-  out['others'] = [n for n in crashfs.listing(root) if n not in (final, final + '.partial', 'data.lzma')]
+  out['others'] = [n for n in crashfs.listing(root) if n not in (final, final + '.partial', src_name)]
   out['net_touched'] = env.net_touched
   out['read_sizes'] = env.read_sizes
   return out
@@ -370,7 +381,7 @@ def _run_attempts(case, faults):
     if case['kind'] == 'decompress' or case.get('stale'):
       os.makedirs(root)
     if case.get('stale'):     # a stale temporary, longer than the payload and not a prefix of it
-      with open(os.path.join(root, FINAL[case['kind']] + '.partial'), 'wb') as f:
+      with open(os.path.join(root, _final(case) + '.partial'), 'wb') as f:
         f.write(b'\xff' * (case['size'] + case['stale']))
     for f in faults:
       outs.append(_attempt(case, root, f, compressed))
@@ -622,14 +633,73 @@ def _extra_cases():
           if size == 0 and dsize < 0:
             continue
           yield {'kind': 'validate', 'size': size, 'dsize': dsize, 'flip': flip, 'upper': upper}
-  for name in ('data.sqlite', 'data.lzma.txt', 'lzma', 'data.LZMA', 'data'):
+  for name in ('data.sqlite', 'data.lzma.txt', 'lzma', 'data.LZMA', 'data', '.lzma', 'data.lzma.partial'):
     yield {'kind': 'misc', 'what': 'not-lzma', 'name': name}
   for name in ('', 'Train', 'valid'):
     yield {'kind': 'misc', 'what': 'bad-split', 'name': name}
   yield {'kind': 'misc', 'what': 'bad-mode', 'name': 'tff'}
 
 
+# --------------------------------------------------------------------------
+# two URLs whose cached names collide with the temporary-name scheme (<name> and <name>.partial in one cache).
+# NOT generated: URL names are not in the property's quantifier; replayable, see known_findings_proposed/C19.json.
+
+def _run_collide(case):
+  from fedjax.datasets import downloads as dl
+  import requests
+  pay = {'x': _payload(case['size']), 'x.partial': b'B' * 10}
+  state = {'fail': None}
+  saved = (dl.requests, dl.log)
+
+  class Raw:
+
+    def __init__(self, data):
+      self.d, self.p, self.j = data, 0, 0
+
+    def read(self, n):
+      if self.j == state['fail']:
+        raise IOError('reset (injected)')
+      self.j += 1
+      b = self.d[self.p:self.p + n]
+      self.p += len(b)
+      return b
+
+  class Resp:
+
+    def __init__(self, data):
+      self.raw, self.headers = Raw(data), {'content-length': str(len(data))}
+
+    def raise_for_status(self):
+      pass
+
+  class Req:
+    exceptions = requests.exceptions
+
+    @staticmethod
+    def get(url, **kw):
+      return Resp(pay[os.path.basename(url)])
+
+  base = tempfile.mkdtemp(prefix='C19-collide-')
+  try:
+    dl.requests, dl.log = Req, (lambda *a, **k: None)
+    p2 = dl.maybe_download(URL_BASE + 'x.partial', base)
+    state['fail'] = case['fail_at']
+    try:
+      dl.maybe_download(URL_BASE + 'x', base)
+      first = 'ret'
+    except IOError:
+      first = 'raise'
+    ok = os.path.exists(p2) and open(p2, 'rb').read() == pay['x.partial']
+    absent = not os.path.exists(p2)
+  finally:
+    dl.requests, dl.log = saved
+    shutil.rmtree(base, ignore_errors=True)
+  return {'collide': first, 'other_complete': ok, 'other_absent': absent}
+
+
 def run(case):
+  if case['kind'] == 'collide':
+    return _run_collide(case)
   if case['kind'] == 'validate':
     return _run_validate(case)
   if case['kind'] == 'misc':
@@ -643,6 +713,11 @@ def run(case):
 # --------------------------------------------------------------------------
 
 def oracle(case, obs):
+  if case['kind'] == 'collide':
+    if not (obs['other_complete'] or obs['other_absent']):
+      return [('partial-name-collision', 'downloading <name> wrote through the complete cached file of another URL '
+               'whose base name is <name>.partial: that final path now holds a prefix of the wrong payload')]
+    return []
   if case['kind'] in ('validate', 'misc'):
     return _oracle_extra(case, obs)
   out = []
@@ -672,7 +747,7 @@ def oracle(case, obs):
 
 # --------------------------------------------------------------------------
 
-def _oev(e, final):
+def _oev(e, final, src_name):
   part = final + '.partial'
   k = e[0]
   if k == 'mk':
@@ -702,7 +777,7 @@ def _oev(e, final):
   if k == 'read':
     return f'ORead {e[1]}%nat'
   if k == 'zopen':
-    return 'OZOpen' if e[1] == 'data.lzma' else 'OBad'
+    return 'OZOpen' if e[1] == src_name else 'OBad'
   if k == 'zread':
     return f'OZRead {e[1]}%nat'
   return 'OBad'
@@ -731,13 +806,13 @@ def _encode_split(case, obs):
     crash = f'(Some {f[1]}%nat)' if f and f[0] == 'crash' else 'None'
     calls.append(f'(KConvert {_optlist(clients)} {fw.zlist([1] * SPLIT_TOTAL)}, {crash})')
     code = {'ret': 0, 'crash': 2}.get(a['outcome'], 1)
-    ocalls.append(f'(mkOCall {fw.clist([_oev(e, final) for e in a["trace"]])} {code} {_ofile(a["final"])} '
+    ocalls.append(f'(mkOCall {fw.clist([_oev(e, final, '') for e in a["trace"]])} {code} {_ofile(a["final"])} '
                   f'{_ofile(a["partial"])})')
   return f'(mkC19 {fw.clist(calls)} {fw.cbool(bool(case.get("stale")))}, mkO19 {fw.clist(ocalls)})'
 
 
 def encode(case, obs):
-  if case['kind'] in ('validate', 'misc'):
+  if case['kind'] in ('validate', 'misc', 'collide'):
     return None
   if case['kind'] == 'cifar_split':
     return _encode_split(case, obs)
@@ -787,7 +862,7 @@ def encode(case, obs):
       crash = f'(Some {f[1]}%nat)'
     calls.append(f'({c}, {crash})')
     code = {'ret': 0, 'crash': 2}.get(a['outcome'], 1)
-    ocalls.append(f'(mkOCall {fw.clist([_oev(e, FINAL[kind]) for e in a["trace"]])} {code} {_ofile(a["final"])} '
+    ocalls.append(f'(mkOCall {fw.clist([_oev(e, _final(case), NAMES[case.get("name", 0)]) for e in a["trace"]])} {code} {_ofile(a["final"])} '
                   f'{_ofile(a["partial"])})')
   return f'(mkC19 {fw.clist(calls)} {fw.cbool(bool(case.get("stale")))}, mkO19 {fw.clist(ocalls)})'
 
@@ -868,7 +943,7 @@ def generate(tier, rng):
       yield {**case, 'attempts': [rng.choice(singles) for _ in range(rng.randrange(2, 5))]}
   for kind in ('download', 'decompress'):
     for i, n in enumerate(sizes[kind]):
-      case = {'kind': kind, 'size': n, 'attempts': [], 'form': i % 4}
+      case = {'kind': kind, 'size': n, 'attempts': [], 'form': i % 4, 'name': i % len(NAMES)}
       yield case
       yield {**case, 'stale': 1 + i}                       # a stale .partial longer than the payload
       singles = _single_faults(case, full, i)
@@ -886,13 +961,13 @@ def generate(tier, rng):
 
 
 def nontrivial(case, obs):
-  if case['kind'] in ('validate', 'misc'):
+  if case['kind'] in ('validate', 'misc', 'collide'):
     return True
   return any(a['outcome'] != 'ret' for a in obs['attempts'])
 
 
 def describe(case, obs):
-  if case['kind'] in ('validate', 'misc'):
+  if case['kind'] in ('validate', 'misc', 'collide'):
     return {'kind': case['kind']}
   if case['kind'] == 'cifar_split':
     fs = _split_faults(case)
@@ -901,13 +976,17 @@ def describe(case, obs):
   b = BS if case['kind'] == 'download' else 64 * 1024
   n = case['size']
   cls = 'empty' if n == 0 else 'lt-block' if n < b else 'eq-block' if n == b else 'multiple' if n % b == 0 else 'several'
-  return {'kind': case['kind'], 'size_class': cls, 'interruptions': len(case['attempts']),
+  served = [sum(x for x in a['read_sizes'] if x > 0) for a in obs['attempts'] if a['outcome'] == 'ret' and a['read_sizes']]
+  honest = all(x == n for x in served)     # the fake source / the real LZMA decoder delivered exactly the payload
+  return {'hyp_honest_source(blocks served = payload)': 'holds' if honest else 'VIOLATED (case not sent to Coq)',
+          'name': case.get('name', 0), 'form': case.get('form', 0), 'stale': 1 if case.get('stale') else 0,
+          'kind': case['kind'], 'size_class': cls, 'interruptions': len(case['attempts']),
           'faults': '+'.join(sorted({f[0] for f in case['attempts']})) or '-',
           'outcomes': '+'.join(sorted({a['outcome'].split(':')[0] for a in obs['attempts']}))}
 
 
 def shrink(case):
-  if case['kind'] in ('validate', 'misc'):
+  if case['kind'] in ('validate', 'misc', 'collide'):
     return
   if case['kind'] == 'cifar_split':
     fs = _split_faults(case)
